@@ -379,6 +379,45 @@ def few_threads():
     numba.set_num_threads(max(1, min(2, numba.get_num_threads())))
 
 
+def unique_models_probe(ctx, data):
+    """models fitted with unique=True on data that really contain duplicate rows (graph_ then has fewer vertices than training rows):
+    the transform contract is unchanged -- rows, columns, the training-data shortcut, repeatability, also after an inverse_transform"""
+    X1 = data["X1"]
+    Xd = np.vstack([X1, X1[3:9], X1[5:7]]).astype(np.float32)
+    for approx in (False, True):
+        desc = dict(model="unique=True, %d training rows of which %d are repeats; %s neighbours" % (Xd.shape[0], 8, "approximate" if approx else "exact"), X=Xd)
+        try:
+            m = umap.UMAP(n_neighbors=KNN, n_epochs=NEP, n_components=NC, random_state=11, transform_seed=5, unique=True,
+                          force_approximation_algorithm=approx).fit(Xd.copy())
+            e0 = m.embedding_.copy()
+            calls = [("train", Xd.copy()), ("train_float64", Xd.astype(np.float64)), ("new", data["Ya"][:4].copy()), ("new", data["Ya"][:4].copy())]
+            outs = []
+            for what, Y in calls:
+                outs.append((what, m.transform(Y)))
+            try:
+                m.inverse_transform(e0[:3] + np.float32(0.01))
+            except Exception:
+                pass
+            outs.append(("new_after_inverse", m.transform(data["Ya"][:4].copy())))
+            outs.append(("train_after_inverse", m.transform(Xd.copy())))
+        except Exception as e:
+            ctx.fail("transform:raises:unique_model", "%s: %s" % (type(e).__name__, e), desc); continue
+        ctx.evaluations += len(outs)
+        ctx.tag(("unique_model", approx), ["unique_model_with_duplicate_rows"])
+        news = [o for w, o in outs if w.startswith("new")]
+        for what, o in outs:
+            n_in = Xd.shape[0] if what.startswith("train") else data["Ya"][:4].shape[0]
+            if o.shape != (n_in, NC):
+                ctx.fail("transform:rows:unique_model", "transform(%s) returned shape %r for %d input rows" % (what, o.shape, n_in), desc); break
+            if what.startswith("train") and not np.array_equal(o, m.embedding_, equal_nan=True):
+                ctx.fail("transform:not_stored_result:current_training_data:unique_model", "transform(%s) did not return the model's embedding_ (max abs difference %.3g)"
+                         % (what, float(np.nanmax(np.abs(o - m.embedding_)))), desc); break
+        if news and not all(np.array_equal(news[0], o) for o in news[1:]):
+            ctx.fail("transform:not_repeatable:unique_model", "seeded model: transform(new) returned different bytes for the same input", desc)
+        if not np.array_equal(e0, m.embedding_, equal_nan=True):
+            ctx.fail("transform:embedding_changed:unique_model", "embedding_ changed during read-only calls", desc)
+
+
 def run(ctx):
     few_threads()
     ctx.check_proofs(["prop/P_C10.v"])
@@ -411,6 +450,7 @@ def run(ctx):
         else:
             explore(ctx, cfg, data, base, ops, depth, allow, records, flags)
         ctx.notes.append("%s: %d histories in %.0fs" % (cfg["name"], len(records) - n0, time.time() - t0))
+    unique_models_probe(ctx, data)
     for _, sig, msg, case in sorted(PENDING, key=lambda t: t[0]):
         ctx.fail(sig, msg, case)
     del PENDING[:]
